@@ -114,6 +114,30 @@ CHECKS = {
         "bounds": {"quick": "BIN level 1; integers < 2^12", "thorough": "BIN level 2; integers < 2^16"},
         "assumptions": COMMON_ASSUME + ["a zero output for subnormals below 2048/256 ulp is accepted: the statement only bounds the distance"],
     },
+    "C19": {
+        "bin": "c19",
+        "quick": cfgs(["dflt", "cmp", "rdx", "cmprdxfmt"]),
+        "thorough": cfgs(["dflt", "cmp", "rdx", "cmprdxfmt", "rdxfmt", "p2"]),
+        "rule": "the C01/C05 string families (S incl. ungrammatical strings, ME, MEV, CF, HW, BD, per radix and mixed-base format) with lossy(true) "
+                "against the non-lossy call on the same input: identical acceptance, error kind and index, consumed count; lossy value within one "
+                "ULP of the exactly computed correctly rounded value (infinity counts as the neighbour of the largest finite float); literal zeros "
+                "and decimal inputs with <= 15 (f64) / 7 (f32) digits and |exponent| <= 22 / 10 unchanged; non-trivial = accepted inputs",
+        "bounds": {"quick": "S depth 5; ME d=4 decimal, 5/3/2 by radix; CF 4 / 2; HW 3 patterns", "thorough": "S depth 7; ME d=5; CF 12 / 6; HW 8 patterns"},
+        "assumptions": COMMON_ASSUME + ["'zero, infinities unchanged' is read as: literal zero inputs and special strings (C15); an input that rounds to infinity may come back as the largest finite float"],
+    },
+    "C16": {
+        "bin": "c16",
+        "cross_config": True,
+        "quick": cfgs(["dflt", "cmp", "p2", "rdx", "fmt", "rdxfmt", "cmprdxfmt", "nostd", "nostd_cmp"]),
+        "thorough": cfgs(["dflt", "cmp", "p2", "rdx", "fmt", "rdxfmt", "cmprdx", "cmprdxfmt", "nostd", "nostd_cmp"]),
+        "rule": "one deterministic input list through the default (decimal, STANDARD) API in every build configuration: float parse and parse_partial "
+                "(S over {+,-,0,1,5,9,.,e,E,x,n,i}, ME, MEV, CF, HW, BD, special strings), integer parse and parse_partial for 12 types (S over "
+                "{+,-,0,1,9,a,_,.,0xFF}, boundary numerals with suffixes), integer output (INT values), float output (BD, BIN, SD values, both signs); a "
+                "64-bit hash per block of results must be identical across all configurations (float output: across non-compact ones; compact float "
+                "output is judged to round-trip exactly). No reference model is involved: purely differential; non-trivial = accepted inputs / written values",
+        "bounds": {"quick": "S depth 5, ME d=3, CF 3, SD d=2, BIN level 1", "thorough": "S depth 7, ME d=4, CF 8, SD d=3, BIN level 2"},
+        "assumptions": ["configurations compared: the feature sets listed in coverage.cross_config.configurations, release profile"],
+    },
 }
 
 # properties not claimed (reason). Kept current by hand.
